@@ -648,9 +648,9 @@ theorem finv_reach {v : Int} {s : FState} (h : FReach FCfg.std s) (hv : fvals s 
 
 structure LazyInv (s : LState) : Prop where
   fresh : s.once = .fresh → s.runs = 0 ∧ ∀ (j : Nat) (c : CallPc), s.callers[j]? = some c → c = .idle
-  running : s.once = .running → s.runs = 1 ∧ (∀ (j : Nat) (r : Int), s.callers[j]? ≠ some (.done r)) ∧
+  running : s.once = .running → s.runs = 1 ∧ (∀ (j : Nat) (r : LOut), s.callers[j]? ≠ some (.done r)) ∧
       ∀ (j k : Nat), s.callers[j]? = some .inF → s.callers[k]? = some .inF → j = k
-  done : ∀ v, s.once = .done v → s.runs = 1 ∧ (∀ (j : Nat) (r : Int), s.callers[j]? = some (.done r) → r = v) ∧
+  done : ∀ v, s.once = .done v → s.runs = 1 ∧ (∀ (j : Nat) (r : LOut), s.callers[j]? = some (.done r) → r = v) ∧
       ∀ (j : Nat), s.callers[j]? ≠ some .inF
 
 theorem linv_init (n : Nat) : LazyInv (linit n) := by
